@@ -82,9 +82,11 @@ def _write(root, v, shift, name="vm"):
         fh.write(SRC.format(v=v, blank="\n" * shift))
 
 
-def session(root, ops):
+def session(root, ops, si=0):
     """One process lifetime.  Returns observations: (op index, kind, definition version, x, value|EXC, executed)."""
     from joblib import Memory
+    global _LAYOUT_PAD      # another address-space layout per session (see mem_machine.session)
+    _LAYOUT_PAD = [bytearray(64 + (si * 37 + k) % 200) for k in range(500 + 131 * (si + 1))]
     warnings.simplefilter("ignore")
     __import__("logging").disable(50)
     sys.dont_write_bytecode = True
@@ -147,7 +149,7 @@ def run_case(case):
         stats = {"version_changes_then_call": 0, "restarts": 0, "reloads": 0, "older_calls": 0}
         changed = {k: False for k in KINDS}
         for si, ops in enumerate(case["sessions"]):
-            kind, res = fork_run(lambda: session(root, ops), 60.0)
+            kind, res = fork_run(lambda: session(root, ops, si), 60.0)
             if kind != "ok":
                 return {"verdict": None, "harness_error": "session %d: %s %s" % (si, kind, str(res)[:500])}
             stats["restarts"] += 1 if si else 0
